@@ -29,7 +29,8 @@ RULE = (
     "documents - load() must raise or return a tree that satisfies the C01-C03 predicates. reader part: an "
     "independent encoder renders tree specs to the documented layout with free "
     "formatting choices (indent, key order, maps on/off, clone references on/off, older generator strings) and "
-    "load() must return the described tree; plus the four literal documents of the user guide and generated JSON "
+    "load() must return the described tree (a third of the cases pass a file_meta dict that already received the "
+    "header of another, compact document); plus the four literal documents of the user guide and generated JSON "
     "without a valid nutree header, which must be rejected. Non-trivial: document with a clone reference and a dict "
     "entry; distinct = distinct case."
 )
@@ -133,7 +134,7 @@ def run_writer(case, rec):
         if pidx != exp_p or not isinstance(pidx, int) or isinstance(pidx, bool) or pidx >= i:
             rec.fail("entry:parent-position", {"i": i, "got": pidx, "exp": exp_p})
             return
-        kind = getattr(n, "kind", None)
+        kind = n.kind if prof.typed else None  # (on a plain tree with forward_attrs, node.kind would be the data's attribute)
         fo = first_occ.get(n.data_id)
         expect_ref = fo is not None and fo[1] == kind
         if fo is None:
@@ -317,6 +318,10 @@ def run_reader(case, rec):
     meta = {}
     rec.evals += 1
     rec.cls(f"profile={prof.name}")
+    if opt.get("preload"):
+        # the caller's file_meta dict already received the header of another (compact) document
+        Tree.load(io.StringIO(serial.PRELOAD_DOC), file_meta=meta)
+        rec.cls("file_meta-dict-used-before")
     try:
         loaded = cls.load(io.StringIO(text), file_meta=meta, **kw)
     except Exception as e:  # noqa: BLE001
@@ -584,6 +589,8 @@ def reader_cases(draw, tier):
             opt["value_map"] = {k: list(v) for k, v in vm.items()}
     if draw(st.booleans()):
         opt["meta"] = draw(st.sampled_from([{"foo": "bar"}, {"ünï": "cödé", "n": 1}]))
+    if draw(st.sampled_from([0, 0, 1])):
+        opt["preload"] = True
     return {"profile": profile, "spec": spec, "opt": opt}
 
 
